@@ -23,7 +23,7 @@ from concurrent.futures import ThreadPoolExecutor
 
 REPO = '/tmp/mut_clean'      # a clean export of /repo's HEAD (git archive), made by main()
 VERIF = os.path.dirname(os.path.abspath(__file__))
-JOBS = 16
+JOBS = int(os.environ.get("VERIF_JOBS", "16"))
 
 CMP = {ast.Lt: ('<', '<='), ast.LtE: ('<=', '<'), ast.Gt: ('>', '>='), ast.GtE: ('>=', '>'), ast.Eq: ('==', '!='),
        ast.NotEq: ('!=', '=='), ast.Is: ('is', 'is not'), ast.IsNot: ('is not', 'is'), ast.In: ('in', 'not in'),
